@@ -219,8 +219,15 @@ theorem toString_pure (a : Option Val) (r : Val) (hs : toStringS a = .ok r) :
   cases a with
   | none => simpa [nullish] using hs
   | some v =>
-    cases v <;> simp [nullish, unmodelled] at hs <;>
-      simp [toStringOp, pyStr, hs, bind, Except.bind, pure, Except.pure]
+    cases v with
+    | date u o =>
+      cases o with
+      | none => simpa [nullish, toStringOp] using hs
+      | some off => simp [nullish, unmodelled] at hs
+    | _ =>
+      all_goals
+        simp [nullish, unmodelled] at hs <;>
+          simp [toStringOp, pyStr, hs, bind, Except.bind, pure, Except.pure]
 
 /-! ### how `eval` runs the handlers -/
 
